@@ -301,6 +301,6 @@ def check(run, views, tier):
                     run.ob("R-COSTSITES", "%s: fold does not copy its accumulator" % fn.split("::", 1)[-1], not copies,
                            "the closure of %s copies / re-formats the accumulator (%s) in every step: the cost of step i is the size built so far (quadratic in the value length)" % (
                                n["name"], sorted(set(copies))[:3]), site(fb, n), key="R-COSTSITES|%s|fold-accumulator" % fn)
-        run.floor("R-COSTSITES", n_sites, 12, "cost sites (loops and linear-cost calls) in the parse cone")
-        run.floor("R-COSTSITES", len(fns), 35 if "async" in F.features else 20, "functions in the parse cone")
+        run.floor("R-COSTSITES", n_sites, 6, "cost sites (loops and linear-cost calls) in the parse cone")
+        run.floor("R-COSTSITES", len(fns), 15 if "async" in F.features else 8, "functions in the parse cone")
         run.meta.setdefault("coverage_extra", {})["classes_" + cfg] = {str(k): v for k, v in classes.items()}
